@@ -606,7 +606,7 @@ impl Gen<'_> {
 			// whether the read that started the assertions was of that field or of another one
 			self.note("assert-reads-own-field");
 			let f = *self.rng.pick(&["a", "b", "h"]);
-			parts.push(format!("assert std.objectHasAll(self, \"{f}\") && self.{f} == self.{f} || true : \"own\""));
+			parts.push(format!("assert std.objectHasAll(self, \"{f}\") && std.type(self.{f}) != \"x\" || true : \"own\""));
 		}
 		if self.rng.chance(1, 8) {
 			let x = self.fresh("p");
@@ -826,6 +826,10 @@ pub fn run_engine(opts: &Opts, traces: bool) {
 		"rule":"type-directed random programs (depth<=4 quick / 5 thorough) over locals, closures, functions with positional/named/default parameters in random call styles, conditionals, arithmetic/comparison/logic/bitwise operators, string repetition, std.join/reverse/foldr/flattenArrays/objectValues, std.foldl/foldr/filter over arrays with failing or traced elements under callbacks that ignore the element (and failing initial accumulators under callbacks that ignore it), strings, arrays and comprehensions, indexing and slicing, objects with inheritance/visibility/self/super/$/locals/asserts/methods/computed names, error and assert; ~5% ill-typed or failing sub-terms; outcome = manifested JSON (numbers as IEEE bit patterns) or error class, plus the sorted multiset of std.trace labels"
 	});
 	drop(guard);
+	let mut meta = meta;
+	if traces {
+		meta["lazy_entry"] = lazy_entry_family(opts, &mut w, opts.seed ^ 0xC03, if opts.thorough() { 6000 } else { 600 });
+	}
 	w.finish(meta, &opts.out);
 }
 
@@ -1037,7 +1041,321 @@ pub fn run_prepared(opts: &Opts) {
 		"engine":"c01t","cases":w.n,"path_outcome_hist":kinds,
 		"rule":"functions of 1-3 parameters whose defaults are constants, other parameters or outer locals shadowed by parameters; called by a call expression, through PreparedFuncVal (positional prefix + shuffled named rest) and through apply_tla (all named); each outcome vs the definitional interpreter on the equivalent call expression"
 	});
+	drop(_g);
+	let mut meta = meta;
+	meta["lazy_entry"] = lazy_entry_family(opts, &mut w, opts.seed ^ 0xC01, if opts.thorough() { 6000 } else { 600 });
 	w.finish(meta, &opts.out);
+}
+
+/// Entry-argument laziness family (C01: a top-level-argument call / an external variable is the same
+/// program as the call / the local binding written in the language; C03: what the program does not
+/// need is never evaluated, what it needs several times is evaluated once).
+///
+/// (1) `tla`: a function of 1-3 parameters (+ an optional selector) is called through the real
+///     `apply_tla` with arguments of EVERY `TlaArg` kind (String, Val, Lazy, InlineCode, Import =
+///     code file, ImportStr = string file); the code of an argument is a value, a traced value, a
+///     failing term (user error, type error, division by zero, bounds, assert, missing field), a
+///     traced failing term, an argument with internal sharing, or — only where the call never
+///     needs the argument — a term that cannot even be analysed (unknown variable, syntax errors).
+///     Each parameter is unused / used only in a branch not taken / used once / used twice, may
+///     have a failing or traced default that the argument overrides, or a default that is used.
+///     Reference: the definitional interpreter on `(function(..) body)(a = .., b = ..)`.
+/// (2) `ext`: external variables of every kind with the same payloads, read zero / dead-branch /
+///     one / two times through `std.extVar`; reference: `local ev_x = ..; body` with the reads
+///     replaced by the local.
+/// A fresh State per case: inline code and files are cached per State by their text / path.
+pub fn lazy_entry_family(opts: &Opts, w: &mut CaseWriter, seed: u64, n: usize) -> Value {
+	use jrsonnet_evaluator::{tla::TlaArg, val::MemoizedClosureThunk, IStr, Thunk};
+	use jrsonnet_gcmodule::Trace;
+
+	#[derive(Trace)]
+	struct LazyEnv {
+		st: State,
+		code: String,
+	}
+	fn lazy_body(e: LazyEnv) -> jrsonnet_evaluator::Result<Val> {
+		e.st.evaluate_snippet("<lazy>".to_owned(), e.code)
+	}
+
+	#[derive(Clone, Copy, PartialEq, Eq, Debug)]
+	enum Need {
+		Unused,
+		Dead,
+		Once,
+		Twice,
+	}
+	struct Payload {
+		kind: &'static str,
+		/// code (code kinds) or raw text (string kinds) or literal (val)
+		text: String,
+		/// the same argument written in the language
+		reference: String,
+		class: &'static str,
+	}
+	fn str_lit(s: &str) -> String {
+		serde_json::to_string(s).unwrap_or_else(|_| "\"\"".into())
+	}
+	fn payload(rng: &mut Rng, label: &mut usize, case: usize, never_needed: bool) -> Payload {
+		let kind = *rng.pick(&["code", "code", "code", "codefile", "codefile", "lazy", "val", "str", "strfile"]);
+		match kind {
+			"str" | "strfile" => {
+				let text = (*rng.pick(&["plain", "error \"boom\"", "std.trace(\"TS\", 1)", "1 +", "", "nope", "x y"])).to_string();
+				Payload { kind, reference: str_lit(&text), text, class: "text" }
+			}
+			"val" => {
+				let text = (*rng.pick(&["0", "7", "true", "false", "\"v\""])).to_string();
+				Payload { kind, reference: text.clone(), text, class: "value" }
+			}
+			_ => {
+				let value = |rng: &mut Rng| (*rng.pick(&["7", "0", "\"s\"", "[1, 2]", "{ x: 1 }", "true", "null"])).to_string();
+				let bomb = |rng: &mut Rng| {
+					(*rng.pick(&[
+						"error \"boom\"", "error 'boom'", "(1 < \"a\")", "(1 + {})", "(1/0)", "(5 % 0)", "[1][5]",
+						"(assert false : \"bad\"; 1)", "{}.zz", "(local f(p) = p; f())",
+					]))
+					.to_string()
+				};
+				let lab = |label: &mut usize| {
+					*label += 1;
+					format!("T{case}_{label}")
+				};
+				let (text, class, reference): (String, &'static str, Option<String>) = match rng.below(if never_needed { 8 } else { 6 }) {
+					0 => (value(rng), "value", None),
+					1 => (format!("std.trace(\"{}\", {})", lab(label), value(rng)), "traced", None),
+					2 => (bomb(rng), "bomb", None),
+					3 => (format!("std.trace(\"{}\", {})", lab(label), bomb(rng)), "traced-bomb", None),
+					4 => (format!("local q = std.trace(\"{}\", 2); q + q", lab(label)), "shared", None),
+					5 => (format!("[std.trace(\"{}\", 1), {}][0]", lab(label), bomb(rng)), "lazy-inside", None),
+					_ => (
+						(*rng.pick(&["nope", "nope + 1", "1 +", ")", "local x = ; x", "{ a: }", "function(", "\"unterminated", "std.trace(\"TX\", 1) +"]))
+							.to_string(),
+						"static",
+						Some("error \"static\"".to_string()),
+					),
+				};
+				let reference = reference.unwrap_or_else(|| format!("({text})"));
+				Payload { kind, text, reference, class }
+			}
+		}
+	}
+	let tmp = opts.out.join("files");
+	let _ = std::fs::create_dir_all(&tmp);
+	let tmp = std::fs::canonicalize(&tmp).unwrap_or(tmp);
+	let mut files: Vec<std::path::PathBuf> = Vec::new();
+	let mk_arg = |st: &State, p: &Payload, case: usize, name: &str, files: &mut Vec<std::path::PathBuf>| -> TlaArg {
+		match p.kind {
+			"str" => TlaArg::String(IStr::from(p.text.as_str())),
+			"val" => match p.text.as_str() {
+				"true" => TlaArg::Val(Val::Bool(true)),
+				"false" => TlaArg::Val(Val::Bool(false)),
+				"\"v\"" => TlaArg::Val(Val::string("v")),
+				t => TlaArg::Val(Val::Num(t.parse::<i32>().unwrap_or(0).into())),
+			},
+			"lazy" => TlaArg::Lazy(Thunk::new(MemoizedClosureThunk::new(
+				LazyEnv { st: st.clone(), code: p.text.clone() },
+				lazy_body,
+			))),
+			"code" => TlaArg::InlineCode(p.text.clone()),
+			k => {
+				let path = tmp.join(format!("e{case}_{name}.{}", if k == "codefile" { "jsonnet" } else { "txt" }));
+				let _ = std::fs::write(&path, &p.text);
+				files.push(path.clone());
+				let path = path.to_string_lossy().into_owned();
+				if k == "codefile" {
+					TlaArg::Import(path)
+				} else {
+					TlaArg::ImportStr(path)
+				}
+			}
+		}
+	};
+	let mut rng = Rng::new(seed ^ 0x1A2E);
+	let mut hist: BTreeMap<String, usize> = BTreeMap::new();
+	let mut outcomes: BTreeMap<String, usize> = BTreeMap::new();
+	let pick_need = |rng: &mut Rng| *rng.pick(&[Need::Unused, Need::Unused, Need::Dead, Need::Dead, Need::Once, Need::Twice]);
+	for case in 0..n {
+		let mut label = 0usize;
+		let ext = case % 3 == 2;
+		let names: &[&str] = if ext { &["x", "y", "z"] } else { &["a", "b", "c"] };
+		let np = 1 + rng.below(3);
+		// the selector of dead branches: a literal, or (tla) a parameter `s` whose argument is a boolean
+		let sel_val = rng.chance(1, 2);
+		let sel_param = !ext && rng.chance(1, 2);
+		let mut terms: Vec<String> = Vec::new();
+		let mut params: Vec<String> = Vec::new();
+		let mut passed: Vec<(String, Payload)> = Vec::new();
+		// first pass: what the body does with each parameter / variable, and the defaults
+		let mut needs: Vec<Need> = Vec::new();
+		let mut dflts: Vec<Option<String>> = Vec::new();
+		let mut referenced = [false; 3];
+		for name in &names[..np] {
+			let need = pick_need(&mut rng);
+			let rd = if ext { format!("std.extVar(\"{name}\")") } else { (*name).to_string() };
+			match need {
+				Need::Unused => {}
+				Need::Dead => {
+					let sel = if sel_param {
+						if sel_val { "s" } else { "!s" }
+					} else {
+						"true"
+					};
+					terms.push(match rng.below(4) {
+						0 => format!("(if {sel} then 0 else {rd})"),
+						1 => format!("(if !({sel}) then {rd} else 1)"),
+						2 => format!("(if {sel} || {rd} then 2 else 3)"),
+						_ => format!("(if !({sel}) && {rd} then 2 else 3)"),
+					});
+				}
+				Need::Once => terms.push(rd.clone()),
+				Need::Twice => {
+					if rng.chance(1, 2) {
+						terms.push(rd.clone());
+						terms.push(rd.clone());
+					} else {
+						terms.push(format!("[{rd}, {rd}]"));
+					}
+				}
+			}
+			*hist.entry(format!("need:{need:?}")).or_default() += 1;
+			needs.push(need);
+			// default: none / value / another parameter
+			dflts.push(if ext {
+				None
+			} else {
+				match rng.below(6) {
+					3 => Some("300".into()),
+					4 => {
+						let j = rng.below(np);
+						referenced[j] = true;
+						Some(format!("{} + 1", names[j]))
+					}
+					_ => None,
+				}
+			});
+		}
+		// second pass: the arguments
+		for (i, name) in names[..np].iter().enumerate() {
+			let need = needs[i];
+			// `never`: the call cannot need this argument (not even through a default of another parameter)
+			let never = matches!(need, Need::Unused | Need::Dead) && !referenced[i];
+			if ext {
+				let mut p = payload(&mut rng, &mut label, case, never);
+				if need == Need::Twice && p.kind == "code" {
+					// EXCLUDED (finding, see DESIGN): an inline ext-code variable is re-evaluated by every
+					// std.extVar read (SourceFifo paths compare by address, so the file cache never hits)
+					p.kind = "codefile";
+				}
+				*hist.entry(format!("ext:{}:{}", p.kind, p.class)).or_default() += 1;
+				passed.push(((*name).to_string(), p));
+				continue;
+			}
+			let dflt = dflts[i].clone();
+			let give = dflt.is_none() || rng.chance(1, 2);
+			let (dflt, dclass) = if give && rng.chance(1, 3) {
+				// a default that the argument overrides is never looked at
+				label += 1;
+				(
+					Some(if rng.chance(1, 2) { "error \"default\"".to_string() } else { format!("std.trace(\"T{case}_{label}\", 1/0)") }),
+					"overridden-failing",
+				)
+			} else if !give && never && rng.chance(1, 2) {
+				(Some("error \"default\"".to_string()), "unneeded-failing")
+			} else {
+				let c = if dflt.is_some() { "plain" } else { "none" };
+				(dflt, c)
+			};
+			*hist.entry(format!("default:{dclass}")).or_default() += 1;
+			params.push(dflt.as_ref().map_or((*name).to_string(), |d| format!("{name} = {d}")));
+			if give {
+				if rng.chance(1, 25) {
+					// parameter left unbound
+					*hist.entry("arity:unbound".into()).or_default() += 1;
+					continue;
+				}
+				let p = payload(&mut rng, &mut label, case, never);
+				*hist.entry(format!("tla:{}:{}", p.kind, p.class)).or_default() += 1;
+				passed.push(((*name).to_string(), p));
+			}
+		}
+		if sel_param {
+			params.push(if rng.chance(1, 3) { "s = error \"sel\"".to_string() } else { "s".to_string() });
+			let text = sel_val.to_string();
+			let kind = *rng.pick(&["code", "codefile", "val", "lazy"]);
+			passed.push(("s".into(), Payload { kind, reference: text.clone(), text, class: "selector" }));
+		}
+		if !ext && rng.chance(1, 30) {
+			*hist.entry("arity:unknown-name".into()).or_default() += 1;
+			let p = payload(&mut rng, &mut label, case, true);
+			passed.push(("zz".into(), p));
+		}
+		// order of the arguments in the reference call is immaterial: shuffle
+		for i in (1..passed.len()).rev() {
+			let j = rng.below(i + 1);
+			passed.swap(i, j);
+		}
+		let body = if terms.is_empty() { "42".to_string() } else { format!("[{}]", terms.join(", ")) };
+		let nonfunc = !ext && rng.chance(1, 25);
+		let env = new_env();
+		let g = env.state.enter();
+		let (path, reference, ans) = if ext {
+			let binds: Vec<String> = passed.iter().map(|(n, p)| format!("ev_{n} = {}", p.reference)).collect();
+			let mut ref_body = body.clone();
+			for n in names {
+				ref_body = ref_body.replace(&format!("std.extVar(\"{n}\")"), &format!("ev_{n}"));
+			}
+			let reference = format!("local {}; {ref_body}", binds.join(", "));
+			for (n, p) in &passed {
+				let a = mk_arg(&env.state, p, case, n, &mut files);
+				env.init.settings_mut().ext_vars.insert(IStr::from(n.as_str()), a);
+			}
+			let ans = run_program(&env, |s| s.evaluate_snippet("<ext>".to_owned(), body.clone()));
+			("ext", reference, ans)
+		} else {
+			// sometimes the top-level value is not a function: the arguments are then never looked at
+			let func = if nonfunc { "[1, 2]".to_string() } else { format!("function({}) {body}", params.join(", ")) };
+			let reference = if nonfunc {
+				*hist.entry("tla:not-a-function".into()).or_default() += 1;
+				func.clone()
+			} else {
+				format!("({func})({})", passed.iter().map(|(n, p)| format!("{n} = {}", p.reference)).collect::<Vec<_>>().join(", "))
+			};
+			let mut m: std::collections::HashMap<IStr, TlaArg> = std::collections::HashMap::new();
+			for (n, p) in &passed {
+				m.insert(IStr::from(n.as_str()), mk_arg(&env.state, p, case, n, &mut files));
+			}
+			let ans = run_program(&env, |s| {
+				let f = s.evaluate_snippet("<tla>".to_owned(), func.clone())?;
+				jrsonnet_evaluator::apply_tla(&m, f)
+			});
+			("tla", reference, ans)
+		};
+		drop(g);
+		for f in files.drain(..) {
+			let _ = std::fs::remove_file(f);
+		}
+		let source = Source::new_virtual("<lazy-entry>".into(), reference.as_str().into());
+		let ast = match jrsonnet_ir_parser::parse(&reference, &jrsonnet_ir_parser::ParserSettings { source }) {
+			Ok(e) => astjson::expr(&e),
+			Err(_) => json!(["unsupported", "syntax error"]),
+		};
+		let key = format!("{path}:{}", ans.get("err").and_then(Value::as_str).unwrap_or(if ans.get("ok").is_some() { "ok" } else { "panic" }));
+		*outcomes.entry(key).or_default() += 1;
+		let given: Vec<Value> = passed.iter().map(|(n, p)| json!([n, p.kind, p.text])).collect();
+		let entry = if ext {
+			body.clone()
+		} else if nonfunc {
+			"[1, 2]".to_string()
+		} else {
+			format!("function({}) {body}", params.join(", "))
+		};
+		w.case(
+			json!({"op":"eval.run","path":format!("lazy-{path}"),"src":reference,"ast":ast,"fuel":300,"size":reference.len(),
+				"_entry": entry, "_given": given}),
+			ans,
+		);
+	}
+	json!({"cases": n, "hist": hist, "outcome_hist": outcomes,
+		"rule": "top-level functions called through apply_tla, and std.extVar reads, with arguments of every TlaArg kind (String, Val, Lazy, InlineCode, Import, ImportStr) whose code is a value / traced / failing (user, type, div0, bounds, assert, nofield, arity) / traced failing / internally shared / not analysable (unknown variable, syntax error; only where never needed); each parameter or variable unused / read in a branch not taken / read once / read twice; failing or traced defaults overridden by the argument; unbound parameter, unknown argument name, non-function top-level value; reference = the call expression (resp. local bindings) written in the language, outcome and sorted trace multiset"})
 }
 
 pub fn run(opts: &Opts) {
